@@ -139,6 +139,26 @@ pub fn stress_sources() -> Vec<(String, String)> {
         let ps: Vec<String> = (0..*n).map(|i| format!("p{}", i)).collect();
         v.push((format!("call-{}-args", n), format!("function wide({}) -> p0 + p{};\nprint(\"start\\n\");\nprint(\"~\\n\", wide({}));\n", ps.join(", "), n - 1, a.join(", "))));
     }
+    // method calls count the receiver too: 254 explicit arguments is the most; 255, 256, 257, 300, 511, 512 must be rejected
+    // (also against a method that takes none, and in operator position the count cannot arise)
+    for n in [255usize, 256, 257, 300, 511, 512].iter() {
+        let a: Vec<String> = (0..*n).map(|i| i.to_string()).collect();
+        let ps: Vec<String> = (0..*n).map(|i| format!("p{}", i)).collect();
+        v.push((
+            format!("method-{}-args", n),
+            format!("let o = object begin function wide({}) -> p0 + p{}; end;\nprint(\"start\\n\");\nprint(\"~\\n\", o.wide({}));\n", ps.join(", "), n - 1, a.join(", ")),
+        ));
+        v.push((format!("method-{}-args-to-a-short-method", n), format!("let o = object begin function few(x) -> x; end;\nprint(\"start\\n\");\nprint(\"~\\n\", o.few({}));\n", a.join(", "))));
+    }
+    // format strings that spell the names the compiler makes up for labels and hidden temporaries, before and after the
+    // constructs that generate them
+    let mut t = String::new();
+    for k in 0..4 {
+        t.push_str(&format!("print(\"if:end:{k}\");\nprint(\"if:consequent:{k}\");\nprint(\"loop:body:{k}\");\nprint(\"loop:condition:{k}\");\nprint(\"::size_{k}\");\nprint(\"::array_{k}\");\nprint(\"::i_{k}\");\nprint(\"array:body:{k} array:condition:{k}\\n\");\n", k = k));
+        t.push_str(&format!("if {} == 1 then print(\"then{}\\n\") else print(\"else{}\\n\");\nlet w{} = 0; while w{} < 2 do w{} <- w{} + 1;\nprint(\"~\\n\", array(2, begin w{} end));\n", k % 2, k, k, k, k, k, k, k));
+    }
+    t.push_str("print(\"λ:\\n\");\nprint(\"main\\n\");\nprint(\"+\\n\");\nprint(\"get set\\n\");\nfunction named_like_text() -> print(\"named_like_text\\n\");\nnamed_like_text();\nlet o = object begin let fieldname = 1; function methodname() -> print(\"fieldname methodname\\n\"); end;\no.methodname();\n");
+    v.push(("strings-like-internal-names".into(), t));
     // README: a `let` in an array size is visible afterwards, also with a per-element initializer
     v.push((
         "readme-array-size-let".into(),
